@@ -495,3 +495,6 @@ func StrOrd(name string) string {
 	}
 	return fmt.Sprintf("%016x", k)
 }
+
+// IntF is an integer-valued float32 of magnitude <= 2^16 (exact integer abstraction in the engine).
+func IntF(name string) float32 { return float32(intIn(name)) }
